@@ -145,7 +145,10 @@ func (e *Env) ownClass(param string) *Term {
 			}
 		}
 	}
-	return e.classVar(param)
+	if e.classPoly(param) {
+		return e.classVar(param)
+	}
+	return IntLit(2)
 }
 
 // entryOld maps a program variable to its value at function entry.
@@ -398,16 +401,20 @@ func (e *Env) ifStmt(s *ast.IfStmt) {
 	elseB := e.newBlock("else")
 	join := e.newBlock("endif")
 	head.Succ = append(head.Succ, thenB, elseB)
+	armed0 := e.cloneArmed()
 	e.cur = thenB
 	e.assume(c)
 	e.block(s.Body.List)
 	e.jump(join)
+	armed1 := e.mayArmed
+	e.mayArmed = armed0
 	e.cur = elseB
 	e.assume(Not(c))
 	if s.Else != nil {
 		e.stmt(s.Else)
 	}
 	e.jump(join)
+	e.unionArmed(armed1)
 	e.cur = join
 }
 
@@ -717,6 +724,8 @@ func (e *Env) switchStmt(s *ast.SwitchStmt) {
 		e.jump(after)
 	}
 	savedFall := e.fallB
+	armed0 := e.cloneArmed()
+	acc := e.cloneArmed()
 	for i, c := range clauses {
 		cc := c.(*ast.CaseClause)
 		e.cur = bodies[i]
@@ -725,9 +734,19 @@ func (e *Env) switchStmt(s *ast.SwitchStmt) {
 		} else {
 			e.fallB = nil
 		}
+		// a case body may be entered by fallthrough from the previous one: keep what that one armed
+		if i == 0 || !endsInFallthrough(clauses[i-1].(*ast.CaseClause)) {
+			e.mayArmed = cloneArmedMap(armed0)
+		}
 		e.block(cc.Body)
 		e.jump(after)
+		for k, v := range e.mayArmed {
+			if v {
+				acc[k] = true
+			}
+		}
 	}
+	e.mayArmed = acc
 	e.fallB = savedFall
 	e.popCtx()
 	e.cur = after
@@ -748,6 +767,8 @@ func (e *Env) typeSwitchStmt(s *ast.TypeSwitchStmt) {
 	}
 	_ = bind
 	v := e.freeze(e.expr(x))
+	tsArmed0 := e.cloneArmed()
+	tsAcc := e.cloneArmed()
 	after := e.newBlock("endtypeswitch")
 	e.pushCtx(loopCtx{breakB: after})
 	var defaultClause *ast.CaseClause
@@ -775,6 +796,7 @@ func (e *Env) typeSwitchStmt(s *ast.TypeSwitchStmt) {
 		miss := e.newBlock("tcase-miss")
 		head.Succ = append(head.Succ, hit, miss)
 		e.cur = hit
+		e.mayArmed = cloneArmedMap(tsArmed0)
 		e.assume(match)
 		if obj := e.info().Implicits[cc]; obj != nil {
 			var bv Value
@@ -787,9 +809,15 @@ func (e *Env) typeSwitchStmt(s *ast.TypeSwitchStmt) {
 		}
 		e.block(cc.Body)
 		e.jump(after)
+		for k, v := range e.mayArmed {
+			if v {
+				tsAcc[k] = true
+			}
+		}
 		e.cur = miss
 		e.assume(Not(match))
 	}
+	e.mayArmed = cloneArmedMap(tsArmed0)
 	if defaultClause != nil {
 		if obj := e.info().Implicits[defaultClause]; obj != nil {
 			e.writeVar(e.localName(obj), obj.Type(), v)
@@ -797,6 +825,7 @@ func (e *Env) typeSwitchStmt(s *ast.TypeSwitchStmt) {
 		e.block(defaultClause.Body)
 	}
 	e.jump(after)
+	e.unionArmed(tsAcc)
 	e.popCtx()
 	e.cur = after
 }
@@ -809,7 +838,7 @@ func (e *Env) returnStmt(s *ast.ReturnStmt) {
 		fr := e.inlineRet[n-1]
 		resultVs, resultObs, retB = fr.results, fr.resObs, fr.retB
 	} else {
-		resultVs, resultObs, retB = e.resultVs, e.resultObs, e.exitB
+		resultVs, resultObs = e.resultVs, e.resultObs
 	}
 	if len(s.Results) == 1 && len(resultVs) > 1 {
 		v := e.expr(s.Results[0])
@@ -829,7 +858,11 @@ func (e *Env) returnStmt(s *ast.ReturnStmt) {
 			}
 		}
 	}
-	e.jump(retB)
+	if retB != nil {
+		e.jump(retB)
+	} else {
+		e.leave()
+	}
 	e.dead()
 }
 
@@ -907,4 +940,31 @@ func countAssignments(info *types.Info, body *ast.BlockStmt) map[types.Object]in
 		return true
 	})
 	return out
+}
+
+
+func cloneArmedMap(m map[*deferSite]bool) map[*deferSite]bool {
+	out := map[*deferSite]bool{}
+	for k, v := range m {
+		out[k] = v
+	}
+	return out
+}
+
+func (e *Env) cloneArmed() map[*deferSite]bool { return cloneArmedMap(e.mayArmed) }
+
+func (e *Env) unionArmed(o map[*deferSite]bool) {
+	for k, v := range o {
+		if v {
+			e.mayArmed[k] = true
+		}
+	}
+}
+
+func endsInFallthrough(cc *ast.CaseClause) bool {
+	if len(cc.Body) == 0 {
+		return false
+	}
+	bs, ok := cc.Body[len(cc.Body)-1].(*ast.BranchStmt)
+	return ok && bs.Tok == token.FALLTHROUGH
 }
